@@ -49,6 +49,7 @@ impl Layer {
     }
 }
 
+const FOREIGN_TYPES: [&str; 3] = ["application/json", "application/vnd.numpy", "application/vnd.apache.parquet"];
 const KIND_NAMES: [&str; 4] = ["instance", "parametric-instance", "solution", "sample-set"];
 const TEXTS: [&str; 6] = ["knapsack", "a title with spaces", "MIT", "日本語のタイトル", "x=1;y=2", ""];
 
@@ -259,12 +260,18 @@ fn tmp_path(tag: &str) -> std::path::PathBuf {
     dir.join(format!("c20-{}-{}-{tag}.ommx", std::process::id(), COUNTER.fetch_add(1, Ordering::SeqCst)))
 }
 
-fn check_artifact<B: ocipkg::image::Image>(sig: &str, art: &mut Artifact<B>, layers: &[Layer], what: &dyn Fn() -> String) -> PResult {
+fn check_artifact<B: ocipkg::image::Image>(sig: &str, art: &mut Artifact<B>, layers: &[Layer], n_foreign: usize, what: &dyn Fn() -> String) -> PResult {
     let manifest = match art.get_manifest() {
         Ok(m) => m,
         Err(e) => return fail(format!("{sig}/manifest-err"), format!("get_manifest failed: {e:#}: {}", what())),
     };
-    let descs = manifest.layers().clone();
+    // layers of other media types (as the Python SDK adds them: JSON, numpy, parquet) live next to the OMMX layers
+    // and do not concern the typed getters
+    let all_descs = manifest.layers().clone();
+    let descs: Vec<_> = all_descs.iter().filter(|d| !FOREIGN_TYPES.iter().any(|f| d.media_type().to_string() == *f)).cloned().collect();
+    if all_descs.len() - descs.len() != n_foreign {
+        return fail(format!("{sig}/foreign-layer-count"), format!("{} layers of foreign media types in the manifest, {n_foreign} were added: {}", all_descs.len() - descs.len(), what()));
+    }
     if descs.len() != layers.len() {
         return fail(format!("{sig}/layer-count"), format!("{} layers in the manifest, {} were added: {}", descs.len(), layers.len(), what()));
     }
@@ -413,7 +420,7 @@ impl Property for C20 {
          oracle = in-memory model: ordered list of (media type, message, annotations); non-trivial = >=3 layers of >=2 kinds with a non-empty annotation map; distinct = sha256(history)"
     }
     fn required_labels(&self) -> Vec<String> {
-        ["kind=instance", "kind=parametric-instance", "kind=solution", "kind=sample-set", "empty-message", "same-message-twice", "wrong-kind-request", "non-ommx-image", "non-ommx-image-without-artifact-type", "zero-layers", "created-time", "user-defined-key", "identical-blob-different-kind", "identical-nonempty-blob-different-kind", "reopened", "first-author-starts-with-blank", "author-with-outer-blank", "sample-set-in-1.6-layout"].iter().map(|s| s.to_string()).collect()
+        ["kind=instance", "kind=parametric-instance", "kind=solution", "kind=sample-set", "empty-message", "same-message-twice", "wrong-kind-request", "non-ommx-image", "non-ommx-image-without-artifact-type", "zero-layers", "created-time", "user-defined-key", "identical-blob-different-kind", "identical-nonempty-blob-different-kind", "reopened", "first-author-starts-with-blank", "author-with-outer-blank", "sample-set-in-1.6-layout", "foreign-layers-in-between"].iter().map(|s| s.to_string()).collect()
     }
     fn cases(&self, tier: Tier) -> usize {
         match tier {
@@ -433,6 +440,7 @@ impl Property for C20 {
 
     fn run(&self, t: &mut Tape, ctx: &mut Ctx) -> PResult {
         let n = t.weighted(&[1, 2, 3, 3, 3, 2, 2]); // 0..6 layers
+        let foreign_mask: u8 = if t.p(60) { t.byte() } else { 0 };
         let non_ommx = t.p(20);
         let non_ommx_variant = t.choice(3);
         let plan: Vec<(u8, u8)> = (0..n).map(|_| (t.byte(), t.byte())).collect();
@@ -645,12 +653,20 @@ impl Property for C20 {
             )
         };
         ctx.sample_with(|| json!({"history": summary()}));
+        let n_foreign = (0..layers.len()).filter(|li| foreign_mask >> (li % 8) & 1 == 1).count();
+        if n_foreign > 0 {
+            ctx.label("foreign-layers-in-between");
+        }
+        ctx.fp(&[foreign_mask]);
         // build
         let path = tmp_path("a");
         let _ = std::fs::remove_file(&path);
         let built = (|| -> anyhow::Result<Artifact<ocipkg::image::OciArchive>> {
             let mut b = Builder::new_archive_unnamed(path.clone())?;
-            for l in &layers {
+            for (li, l) in layers.iter().enumerate() {
+                if foreign_mask >> (li % 8) & 1 == 1 {
+                    b.add_layer(MediaType::Other(FOREIGN_TYPES[li % FOREIGN_TYPES.len()].to_string()), b"{\"k\": [1, 2, 3]}", HashMap::from([("org.ommx.user.note".to_string(), "not an ommx layer".to_string())]))?;
+                }
                 match l.clone() {
                     Layer::Instance(m, a) => b.add_instance(m, InstanceAnnotations::from(a))?,
                     Layer::Parametric(m, a) => b.add_parametric_instance(m, ParametricInstanceAnnotations::from(a))?,
@@ -667,12 +683,12 @@ impl Property for C20 {
                 return fail("C20/build-err", format!("building the archive failed: {e:#}: {}", summary()));
             }
         };
-        let r1 = check_artifact("C20/built", &mut art, &layers, &summary);
+        let r1 = check_artifact("C20/built", &mut art, &layers, n_foreign, &summary);
         drop(art);
         let r = r1.and_then(|_| {
             ctx.label("reopened");
             match Artifact::from_oci_archive(&path) {
-                Ok(mut a2) => check_artifact("C20/reopened", &mut a2, &layers, &summary),
+                Ok(mut a2) => check_artifact("C20/reopened", &mut a2, &layers, n_foreign, &summary),
                 Err(e) => fail("C20/reopen-err", format!("from_oci_archive failed: {e:#}: {}", summary())),
             }
         });
